@@ -4,7 +4,7 @@
 (* a tuple-output producer).  Behaviours: compositions of at most MaxRw rewrites applied along a chain (`cur` is the *)
 (* object the next rewrite applies to: the result of the previous one) plus at most MaxMut in-place mutations of ANY *)
 (* live object at any point.  Checked on every reachable store:                                                    *)
-(*   InvNoAliasing          an action changes no object but its target(s) and removes none                         *)
+(*   PropNoAliasing         an action changes no object but its target(s) and removes none                         *)
 (*   InvStoreOK             every object is a constructible pipeline with an injective renaming                    *)
 (*   InvRewritePreserves    the model's own rewrite operators preserve Eval/MapDenote: renaming commutes with Eval, *)
 (*                          the observation through `ren` is the evaluation of `sem`, scope removal inverts scope   *)
@@ -23,7 +23,7 @@ VARIABLES nrw, nmut, cur
 mvars == <<rvars, nrw, nmut, cur>>
 
 Init == /\ \E dd \in Universe : objs = (1 :> Fresh(dd))
-        /\ last = [kind |-> "new", tgt |-> {1}, pre |-> << >>]
+        /\ last = [kind |-> "new", tgt |-> {1}]
         /\ nrw = 0 /\ nmut = 0 /\ cur = 1
 
 NextId == Cardinality(Live) + 1
@@ -36,51 +36,49 @@ MkF(name, ps, outs) == [name |-> name, params |-> ps, outputs |-> outs, defaults
 (* a join partner built in the current naming of O: either consumes a retained output, or produces a root argument *)
 PartnerDescs == {[funcs |-> <<MkF("fj", <<n, "q">>, <<"j">>)>>] : n \in O.outs}
                 \cup {[funcs |-> <<MkF("fq", <<"q">>, <<r>>)>>] : r \in FreeRoots(O.sem)}
-PartnerObj(pd) == [Fresh(pd) EXCEPT !.ren = [n \in DescNames(pd) |-> IF n \in DOMAIN O.ren THEN O.ren[n] ELSE Plain(n)]]
+PartnerObj(pd) == [Fresh(pd) EXCEPT !.ren = ForceFn([n \in DescNames(pd) |-> IF n \in DOMAIN O.ren THEN O.ren[n] ELSE Plain(n)])]
 
 RenChoices(o) == LET rs == CurSet(o, FreeRoots(o.sem) \cap Visible(o))  os == CurSet(o, o.outs) IN
     (IF rs = {} THEN {} ELSE {<< <<First(rs), NameRec("", "n9")>> >>, << <<First(rs), NameRec("t", "n9")>> >>})
     \cup (IF os = {} THEN {} ELSE {<< <<First(os), NameRec("", "o9")>> >>})
 
-RwCopy    == Copy(cur, NextId) /\ cur' = NextId
-RwPickle  == PickleRoundTrip(cur, NextId) /\ cur' = NextId
-RwJoin    == \E b \in Live \ {cur} : Join(cur, b, NextId) /\ cur' = NextId
-RwJoinNew == \E pd \in PartnerDescs : LET q == PartnerObj(pd) IN
+Rw == nrw < MaxRw /\ nrw' = nrw + 1 /\ nmut' = nmut
+RwCopy    == Rw /\ Copy(cur, NextId) /\ cur' = NextId
+RwPickle  == Rw /\ PickleRoundTrip(cur, NextId) /\ cur' = NextId
+RwJoin    == Rw /\ \E b \in Live \ {cur} : Join(cur, b, NextId) /\ cur' = NextId
+RwJoinNew == Rw /\ \E pd \in PartnerDescs : LET q == PartnerObj(pd) IN
                 /\ ObjOK(q) /\ JoinDefined(O, q)
                 /\ Step("join", {NextId, NextId + 1}, (NextId :> q) @@ ((NextId + 1) :> JoinObj(O, q)) @@ objs)
                 /\ cur' = NextId + 1
-RwRename  == \E r \in RenChoices(O) : UpdateRenames(cur, r) /\ cur' = cur
-RwScope   == \E sel \in {<<AllSel, AllSel>>, <<AllSel, NoneSel>>, <<NoneSel, AllSel>>} :
+RwRename  == Rw /\ \E r \in RenChoices(O) : UpdateRenames(cur, r) /\ cur' = cur
+RwScope   == Rw /\ \E sel \in {<<AllSel, AllSel>>, <<AllSel, NoneSel>>, <<NoneSel, AllSel>>} :
                 UpdateScope(cur, "s", sel[1], sel[2], << >>) /\ cur' = cur
-RwUnscope == (\E n \in DOMAIN O.ren : O.ren[n].scope # "") /\ RemoveScope(cur, AllSel, AllSel, << >>) /\ cur' = cur
-RwNest    == \E F \in SUBSET FIdx(O.sem) : LET S == {OutputsOf(O.sem, i) : i \in F} IN
+RwUnscope == Rw /\ (\E n \in DOMAIN O.ren : O.ren[n].scope # "") /\ RemoveScope(cur, AllSel, AllSel, << >>) /\ cur' = cur
+RwNest    == Rw /\ \E F \in SUBSET FIdx(O.sem) : LET S == {OutputsOf(O.sem, i) : i \in F} IN
                 \E Nn \in {{}} \cup {OutputsOf(O.sem, i) : i \in F} :
                     NestMustAccept(O, S, Nn) /\ NestFuncs(cur, S, Nn) /\ cur' = cur
-RwSimplify == \E o \in O.outs : /\ SimplifyMustAccept(O, o)
+RwSimplify == Rw /\ \E o \in O.outs : /\ SimplifyMustAccept(O, o)
                  /\ \E newouts \in {O.outs, O.outs \ OutputsOfSet(O.sem, Anc(O.sem, FuncOf(O.sem, o)))} :
                         Simplified(cur, o, NextId, newouts) /\ cur' = NextId
-RwSplit   == /\ SplitMustAccept(O)
+RwSplit   == /\ Rw /\ SplitMustAccept(O)
              /\ LET comps == SetToSeq(Components(O.sem))
                     ids   == [k \in DOMAIN comps |-> NextId + k - 1]
                     parts == [k \in DOMAIN comps |-> O.outs \cap OutputsOfSet(O.sem, comps[k])]
                 IN  SplitDisconnected(cur, ids, parts) /\ \E k \in DOMAIN ids : cur' = ids[k]
-RwAxis    == WithAxis /\ \E p \in FreeRoots(O.sem) : AddMapspecAxis(cur, p, "k") /\ cur' = cur
-Rewrite   == /\ nrw < MaxRw /\ nrw' = nrw + 1 /\ nmut' = nmut
-             /\ (RwCopy \/ RwPickle \/ RwJoin \/ RwJoinNew \/ RwRename \/ RwScope \/ RwUnscope \/ RwNest \/ RwSimplify
-                 \/ RwSplit \/ RwAxis)
+RwAxis    == Rw /\ WithAxis /\ \E p \in FreeRoots(O.sem) : AddMapspecAxis(cur, p, "k") /\ cur' = cur
 
-MuDefaults == \E a \in Live : LET rs == FreeRoots(objs[a].sem) IN rs # {} /\ MutateDefaults(a, First(rs), Atom("@m_d"))
-MuBound    == \E a \in Live : \E i \in FIdx(objs[a].sem) : Len(objs[a].sem.funcs[i].params) > 0
+Mu == nmut < MaxMut /\ nmut' = nmut + 1 /\ nrw' = nrw /\ cur' = cur
+MuDefaults == Mu /\ \E a \in Live : LET rs == FreeRoots(objs[a].sem) IN rs # {} /\ MutateDefaults(a, First(rs), Atom("@m_d"))
+MuBound    == Mu /\ \E a \in Live : \E i \in FIdx(objs[a].sem) : Len(objs[a].sem.funcs[i].params) > 0
                  /\ MutateBound(a, i, objs[a].sem.funcs[i].params[1], Atom("@m_b"))
-MuRenames  == \E a \in Live : objs[a].outs # {}
+MuRenames  == Mu /\ \E a \in Live : objs[a].outs # {}
                  /\ MutateRenames(a, << <<First(CurSet(objs[a], objs[a].outs)), NameRec("", "m9")>> >>)
-Mutation   == /\ nmut < MaxMut /\ nmut' = nmut + 1 /\ nrw' = nrw /\ cur' = cur
-              /\ (MuDefaults \/ MuBound \/ MuRenames)
 
-Next == Rewrite \/ Mutation
+Next == RwCopy \/ RwPickle \/ RwJoin \/ RwJoinNew \/ RwRename \/ RwScope \/ RwUnscope \/ RwNest \/ RwSimplify
+        \/ RwSplit \/ RwAxis \/ MuDefaults \/ MuBound \/ MuRenames
 Spec == Init /\ [][Next]_mvars
 (* copy and pickle round trip are the same transition of the model: identify their successor states *)
-View == <<objs, last.tgt, last.pre, nrw, nmut, cur>>
+View == <<objs, last.tgt, nrw, nmut, cur>>
 
 ---------------------------------------------------------------------------
 KV(n)  == Atom("@k_" \o n)
@@ -88,19 +86,23 @@ KV2(n) == Arr(<<Atom("@k_" \o n \o "_0"), Atom("@k_" \o n \o "_1")>>)
 (* keyword sets the laws are evaluated on: every root argument; and the root arguments that have no default *)
 TestKws(d) == {KwOfSet(FreeRoots(d), KV), KwOfSet({r \in FreeRoots(d) : ~HasDefault(d, r)}, KV)}
 (* map inputs: array-valued for the root arguments a MapSpec mentions *)
-MapInp(d)  == LET s == SetToSeq(FreeRoots(d)) IN [k \in 1..Len(s) |-> <<s[k], IF s[k] \in InSpecNamesOf(d) THEN KV2(s[k]) ELSE KV(s[k])>>]
+MapInp(d)  == LET s == SetToSeq(FreeRoots(d)) IN ForceSeq([k \in 1..Len(s) |-> <<s[k], IF s[k] \in InSpecNamesOf(d) THEN KV2(s[k]) ELSE KV(s[k])>>])
 
-LawsCall(o) == \A kw \in TestKws(o.sem) :
-                  /\ \A out \in AllOutputs(o.sem) : LawRenameCall(o, kw, out) /\ LawObsCall(o, kw, out)
+LawsCall(o) == LET cd == CurDesc(o)  cm == CurMap(o) IN
+               \A kw \in TestKws(o.sem) : LET ckw == RenKw(o, kw) IN
+                  /\ \A out \in AllOutputs(o.sem) :
+                        LET v == Eval(o.sem, kw, out) IN
+                        /\ Eval(cd, ckw, cm[out]) = RenTerm(v, cm)              \* LawRenameCall
+                        /\ EvalObs(o, cm[out], ckw, "call") = v                 \* LawObsCall
                   /\ LawSplit(o, kw)
-LawsMap(o)  == ValidMapRequest(o.sem, MapInp(o.sem)) /\ LawRenameMap(o, MapInp(o.sem))
+LawsMap(o)  == ValidMapRequest(o.sem, MapInp(o.sem)) => (LawRenameMap(o, MapInp(o.sem)) /\ LawDenoteE(o.sem, MapInp(o.sem)))
 LawsAxis(o) == \A p \in FreeRoots(o.sem) : AddAxisWellFormed(o, p, "k") =>
                   LawAddAxis(o.sem, p, "k", MapInp(o.sem), <<Atom("@v0"), Atom("@v1")>>)
 LawsJoin(a) == \A b \in Live \ {a} : JoinDefined(objs[a], objs[b]) =>
                   LawJoin(objs[a], objs[b], KwOfSet(FreeRoots(objs[a].sem), KV))
 
-InvNoAliasing == NoAliasing
-InvStoreOK    == StoreOK
+PropNoAliasing == NoAliasing
+InvStoreOK    == \A a \in last.tgt \cap Live : ObjOK(objs[a])
 (* evaluated on the objects the last action created or changed (the others were checked when they were) *)
 InvRewritePreserves ==
     \A a \in last.tgt \cap Live : LET o == objs[a] IN
